@@ -444,7 +444,7 @@ def oracle_e2e(text, only=None):
 
 
 def search(ctx, hints):
-    return common.generic_search(ctx, hints, lambda s: oracle(s, None, CORE_KINDS),
+    return common.generic_search(ctx, hints, common.new_only('C08', lambda s: oracle(s, None, CORE_KINDS), classify),
                                  gen=lambda rng: gtf.filter_text(rng)[0], cand_oracle=oracle_e2e)
 
 
